@@ -116,13 +116,14 @@ def specDetachP (n : Nat) (f : Forest) : Forest :=
     let nb := f.nbOf n
     ((f.editAt old (dropTop n)).editAt none (insertLast t)).mergeLeftAt old nb
 
-/-- The corner in which xot deviates from the pair reading (recorded finding
-    `C05:move-changes-character-data`; possible only when the forest already holds adjacent text
-    nodes): the moved node `n` is a text node between two text nodes `a n b`, and once `a` and `b`
-    have been merged `n` already stands at the requested place (`b` was the last child, for
-    `append` to `n`'s own parent; `b` stood directly before the reference node, for
-    `insert_before`).  xot then merges `n` "into its neighbour" — which is `n` itself — and
-    destroys it: its character data is lost. -/
+/-- The corner of finding `C05:move-changes-character-data` (possible only when the forest already
+    holds adjacent text nodes): the moved node `n` is a text node between two text nodes `a n b`,
+    and once `a` and `b` have been merged `n` already stands at the requested place (`b` was the
+    last child, for `append` to `n`'s own parent; `b` stood directly before the reference node, for
+    `insert_before`).  Before xot eccbbb7 `add_consolidate_text_nodes` then merged `n` "into its
+    neighbour" — which is `n` itself — and destroyed it, losing its character data; since eccbbb7
+    it takes `n`'s own previous sibling (the merged `a`) and the call agrees with `specMoveP` here
+    too.  Kept as the decidable description of the corner (suite statistics, corner theorems). -/
 def selfMerge (f : Forest) (dest : Dest) (n : Nat) : Bool :=
   f.consolidation &&
   match f.ctx? n with
